@@ -8,9 +8,14 @@ import (
 	"github.com/chihaya/chihaya/frontend"
 )
 
-// VerifHandler builds a Frontend the way NewFrontend does (validated config), without
-// listeners, and returns its request handler (the router with the announce and scrape routes).
-func VerifHandler(logic frontend.TrackerLogic, provided Config) nethttp.Handler {
-	f := &Frontend{logic: logic, Config: provided.Validate()}
-	return f.handler()
+// VerifHandler builds a Frontend through the REAL NewFrontend (bound to an ephemeral loopback port)
+// and returns the request handler its HTTP server actually serves with, plus a function that stops
+// the frontend.  Whatever NewFrontend does with the provided configuration is thereby exercised.
+func VerifHandler(logic frontend.TrackerLogic, provided Config) (nethttp.Handler, func()) {
+	provided.Addr = "127.0.0.1:0"
+	f, err := NewFrontend(logic, provided)
+	if err != nil {
+		panic("verif shim: NewFrontend failed: " + err.Error())
+	}
+	return f.srv.Handler, func() { <-f.Stop() }
 }
